@@ -6,6 +6,19 @@ use crate::{FrameHeader, Result};
 
 const MAX_NUM_SPLINES: usize = 1 << 24;
 const MAX_NUM_CONTROL_POINTS: usize = 1 << 20;
+/// Control points are drawn in `f32`, one sample per unit of arc length: beyond this (the limit of
+/// libjxl) a unit step no longer moves a coordinate and sampling would not terminate.
+const SPLINE_POS_LIMIT: i64 = 1 << 23;
+
+fn validate_spline_point((x, y): (i64, i64)) -> Result<()> {
+    if x.abs() >= SPLINE_POS_LIMIT || y.abs() >= SPLINE_POS_LIMIT {
+        tracing::error!(x, y, "Spline coordinates out of bounds");
+        return Err(
+            jxl_bitstream::Error::ValidationFailed("spline coordinates out of bounds").into(),
+        );
+    }
+    Ok(())
+}
 
 /// Holds quantized splines
 #[derive(Debug)]
@@ -35,12 +48,14 @@ impl Bundle<&FrameHeader> for Splines {
             decoder.read_varint(bitstream, 1)? as i64,
             decoder.read_varint(bitstream, 1)? as i64,
         );
+        validate_spline_point(prev_point)?;
         start_points[0] = prev_point;
         for next_point in &mut start_points[1..] {
             let x = decoder.read_varint(bitstream, 1)?;
             let y = decoder.read_varint(bitstream, 1)?;
             prev_point.0 += unpack_signed(x) as i64;
             prev_point.1 += unpack_signed(y) as i64;
+            validate_spline_point(prev_point)?;
             *next_point = prev_point;
         }
 
@@ -197,6 +212,7 @@ impl Bundle<QuantSplineParams<'_>> for QuantSpline {
             cur_value.1 = cur_value.1.checked_add(cur_delta.1).ok_or(
                 jxl_bitstream::Error::ValidationFailed("control point overflowed"),
             )?;
+            validate_spline_point(cur_value)?;
             if cur_value == prev_value {
                 return Err(jxl_bitstream::Error::ValidationFailed(
                     "two consecutive control points have the same value",
